@@ -9,6 +9,10 @@ import vlib
 
 TRUSTED = [
     "Coq 8.16.1 kernel + vm_compute (refutation witnesses and the evaluation of the model on every tie case; no native_compute)",
+    "tools/extractors/c19.py regenerates Extracted/ModulesTables.v on every run from patterns.rs (script search patterns and "
+    "their order), exports.rs (is_pub guards of collect_exports, alias / selected-symbol guards of register_exports), load.rs "
+    "(the same guards in the memo path, order std < resolve < key < cycle/memo < push < pop), needs.rs and compile.rs (what "
+    "each import form adds to known_globals) and asserts the remaining order/guard shapes of compile_module and resolution.rs",
     "Model/Modules.v is a hand model of load_module/compile_module/collect_exports/register_exports/get_load_result/"
     "get_module_alias/resolve_path_with_fallback/search_with_patterns(.aelys, mod.aelys)/load_modules_for_program: "
     "paths, names and aliases are numbers, HashMap/HashSet are association lists; it is tied by hx_modules on every run "
@@ -32,7 +36,8 @@ CODES = {0: "ok", 1: "circular", 2: "module-not-found", 3: "symbol-not-found", 4
 
 # ------------------------------------------------------------------------------------------ tree text
 def parse_tree(text):
-    t = {"label": "", "entry": None, "files": collections.OrderedDict(), "probes": [], "links": [], "hints": {}}
+    t = {"label": "", "entry": None, "files": collections.OrderedDict(), "probes": [], "links": [], "hints": {},
+         "inputs": [], "sprobes": [], "opt": 2}
     cur = None
     for item in text.split(";"):
         w = item.split()
@@ -55,6 +60,13 @@ def parse_tree(text):
             cur["imports"].append({"form": w[1], "path": path, "extra": extra})
         elif w[0] == "def":
             cur["defs"].append((w[2], w[1] == "pub"))
+        elif w[0] == "input":
+            cur = {"imports": [], "defs": []}
+            t["inputs"].append(cur)
+        elif w[0] == "opt":
+            t["opt"] = int(w[1])
+        elif w[0] == "sprobe":
+            t["sprobes"].append((int(w[1]), ("bare", w[3]) if w[2] == "bare" else ("qual", w[3], w[4])))
         elif w[0] == "link":
             t["links"].append((w[1].split("/"), w[2].split("/")))
         elif w[0] == "hint":
@@ -362,6 +374,94 @@ def oracle(t, code, trace, probes):
     return out, a
 
 
+def parse_sraw(raw):
+    d = dict(kv.split("=", 1) for kv in raw.split(";") if "=" in kv)
+    inputs = []
+    for part in d["inputs"].split("#"):
+        code, _, tags = part.partition(":")
+        inputs.append((int(code), [x for x in tags.split(",") if x]))
+    probes = [[v for v in p.split("|") if v] for p in d["probes"].split(",")]
+    return inputs, probes
+
+
+def session_oracle(t, inputs_obs, probes):
+    """REPL session: inputs run one after the other on one VM, from the tree's root directory.
+    Each module initialises once per SESSION; names imported by earlier inputs stay usable."""
+    out = []
+
+    def fail(sig, what):
+        out.append((sig, what))
+
+    # every input is a file-less module at the root
+    tt = dict(t)
+    tt["files"] = collections.OrderedDict(t["files"])
+    for k, inp in enumerate(t["inputs"]):
+        tt["files"]["in%d" % k] = {"imports": inp["imports"], "defs": []}
+    done, shared = [], set()
+    for k, (code, tags) in enumerate(inputs_obs):
+        me = "in%d" % k
+        tt["entry"] = me
+        a = analyse(tt)
+        shared |= a["shared_names"]
+        for f in tags:
+            if f in done:
+                fail("session-double-init", f"{f} initialised again by input {k} of the session (first by an earlier input)")
+        if len(set(tags)) != len(tags):
+            fail("double-init", f"input {k}: a top level ran twice: {tags}")
+        allowed = set(a["defects"]) | set(a["possible"])
+        if not a["defects"]:
+            allowed.add(0)
+        if code not in allowed:
+            if code == 0 and a["cycle"]:
+                fail("cycle-not-reported", f"input {k}: a reachable import cycle ran to completion")
+            else:
+                fail("unexpected-outcome", f"input {k}: outcome {CODES.get(code, code)} but only {sorted(CODES[c] for c in allowed)} allowed")
+        if code == 0:
+            want = [f for f in a["reach"] if f not in done]
+            for f in want:
+                if f not in tags:
+                    fail("missing-init", f"input {k}: {f} is imported, was never initialised in this session, and did not run")
+            pos = {f: i for i, f in enumerate(tags)}
+            for f in a["reach"]:
+                for g in a["edges"][f]:
+                    if f in pos and g in pos and pos[g] > pos[f]:
+                        fail("order", f"input {k}: {f} ran before its dependency {g}")
+            if tags and tags[-1] != me:
+                fail("order", f"input {k}: the input's own top level did not run last")
+        for f in tags:
+            if f not in a["reach"]:
+                fail("init-of-unreachable", f"input {k}: {f} ran but is not imported")
+        done += [f for f in tags if f not in done]
+    # names: the grants of all inputs so far
+    nok = len([1 for code, _ in inputs_obs if code == 0])
+    for (k, sp), vals in zip(t["sprobes"], probes):
+        if k >= nok:
+            continue
+        want = set()
+        for j in range(k + 1):
+            want |= grants(tt, "in%d" % j).get(sp, set())
+        if len(want) > 1:
+            continue
+        n = sp[-1]
+        got = [tuple(v.rsplit(":", 1)) for v in vals]
+        exp = list(want)
+        if got == exp:
+            continue
+        spell = n if sp[0] == "bare" else f"{sp[1]}.{n}"
+        what = f"input {k} reads `{spell}` = {got}, the imports of the session so far grant {exp}"
+        if n in shared:
+            fail("ns:same-global-name", what)
+        elif sp[0] == "qual" and got:
+            fail("ns:qualifier-shared-between-importers", what)
+        elif got and not exp:
+            fail("leak", what)
+        elif exp and not got:
+            fail("grant-missing", what)
+        else:
+            fail("wrong-value", what)
+    return out
+
+
 # ------------------------------------------------------------------------------------------ driver
 def run_harness(ctx, path, args, prof):
     rc, out = vlib.sh([path] + args, timeout=900)
@@ -379,9 +479,53 @@ def run_harness(ctx, path, args, prof):
     return rows
 
 
-def check_rows(ctx, rows, prof, origin, stats):
+def check_sessions(ctx, rows, prof, origin, stats):
+    """REPL sessions: tie (sess_obs) + session oracle."""
+    if not rows:
+        return
     cases = [(r[0], r[1]) for r in rows]
-    fails, err = vlib.coq_eval_cases("c19", IMPORTS, "mod_obs", "mobs_eqb", cases, shard=250)
+    fails, err = vlib.coq_eval_cases("c19s", IMPORTS, "sess_obs", "sobs_eqb", cases, shard=100)
+    if err:
+        ctx.broken.append("correspondence C19 (sessions): model evaluation failed")
+        ctx.log(err[-3000:])
+    if fails:
+        ctx.broken.append(f"correspondence C19 ({prof}, {origin}): model and REPL differ on {len(fails)} sessions")
+        bad = [rows[i] for i in fails[:4]]
+        mo, _ = vlib.coq_eval_terms("c19s", IMPORTS, [f"sess_obs ({r[0]})" for r in bad])
+        ctx.cov.setdefault("disagreements", []).extend(
+            {"tree": r[2], "implementation": r[3], "model": m} for r, m in zip(bad, mo))
+        for r in bad[:2]:
+            ctx.violation("tie:model-differs", "the REPL's behaviour on this session differs from Model/Modules.v (run_session)",
+                          {"tree": r[2], "implementation": r[3], "profile": prof})
+    gres, gerr = vlib.coq_eval_terms("c19g", IMPORTS.replace("Model.ModulesObs", "Model.ModulesObs Model.ModulesSpec"),
+                                     [f"unique_defs (s_fs ({r[0]}))" for r in rows])
+    per_sig = collections.Counter()
+    for r, gr in zip(rows, gres):
+        t = parse_tree(r[2])
+        inputs_obs, probes = parse_sraw(r[3])
+        probes = probes[:len(t["sprobes"])] if t["sprobes"] else []
+        stats["runs"] += (1 + len(t["sprobes"])) * len(t["inputs"])
+        stats["sessions"] += 1
+        stats["session_inputs"][len(t["inputs"])] += 1
+        stats["session_outcomes"][CODES.get(inputs_obs[-1][0], str(inputs_obs[-1][0]))] += 1
+        stats["distinct"].add(r[2].split(";", 1)[1])
+        for sig, what in session_oracle(t, inputs_obs, probes):
+            if gr is not None and "true" in gr and sig.startswith("ns:same-global-name"):
+                sig = "guarded-tree:" + sig
+            per_sig[sig] += 1
+            stats["oracle_failures"][sig] += 1
+            if per_sig[sig] <= 2:
+                ctx.violation(sig, what, {"tree": r[2], "implementation": r[3], "profile": prof, "origin": origin})
+
+
+def check_rows(ctx, rows, prof, origin, stats):
+    check_sessions(ctx, [r for r in rows if r[0].startswith("Build_sq")], prof, origin, stats)
+    rows = [r for r in rows if not r[0].startswith("Build_sq")]
+    if not rows:
+        return
+    cases = [(r[0], r[1]) for r in rows]
+    ctx.log(f"{origin}: {len(rows)} trees from the harness; evaluating the model")
+    fails, err = vlib.coq_eval_cases("c19", IMPORTS, "mod_obs", "mobs_eqb", cases, shard=100)
     if err:
         ctx.broken.append("correspondence C19: model evaluation failed")
         ctx.log(err[-3000:])
@@ -397,7 +541,8 @@ def check_rows(ctx, rows, prof, origin, stats):
                           {"tree": r[2], "implementation": r[3], "profile": prof})
     # unique_defs evaluated by Coq on the very same trees: a failure may be attributed to the shared
     # global name root cause only where some top-level name really is defined twice
-    gterms = [f"unique_defs (q_fs ({r[0]}))" for r in rows]
+    gterms = [f"let q := ({r[0]}) in (unique_defs (q_fs q), quals_ok_b (q_fs q) (dir_of (q_entry q)))" for r in rows]
+    ctx.log(f"{origin}: tie done ({len(fails)} differ); evaluating guards")
     gres, gerr = [], None
     for k in range(0, len(gterms), 400):
         part, e = vlib.coq_eval_terms("c19g", IMPORTS.replace("Model.ModulesObs", "Model.ModulesObs Model.ModulesSpec"), gterms[k:k + 400])
@@ -407,13 +552,26 @@ def check_rows(ctx, rows, prof, origin, stats):
         ctx.broken.append("guards C19: unique_defs could not be evaluated in Coq")
         ctx.log((gerr or "")[-2000:])
         gres = [None] * len(rows)
+    ctx.log(f"{origin}: guards done; oracle")
     per_sig = collections.Counter()
     for r, gr in zip(rows, gres):
-        uniq_ok = gr is not None and "true" in gr
+        g2 = (gr or "").replace(" ", "")
+        uniq_ok = gr is not None and "(true," in g2
+        quals_ok = gr is not None and ",true)" in g2
+        stats["guards"][(uniq_ok, quals_ok)] += 1
         t = parse_tree(r[2])
         code, trace, probes, detail = parse_raw(r[3])
         probes = probes[:len(t["probes"])] if t["probes"] else []
         stats["runs"] += 1 + len(t["probes"])
+        stats["opt_levels"]["O%d" % t["opt"]] += 1
+        stats["sizes"][len(t["files"])] += 1
+        if t["links"]:
+            stats["spellings"]["trees with symlinks"] += 1
+        if t["hints"]:
+            stats["spellings"]["trees with manifest paths"] += 1
+        for fobj in t["files"].values():
+            for imp in fobj["imports"]:
+                stats["forms"][imp["form"] if imp["path"][0] != "std" else "std"] += 1
         stats["codes"][CODES.get(code, str(code))] += 1
         stats["labels"][t["label"].split("-")[-1] if t["label"].startswith("random") else "structured"] += 1
         if len(t["files"]) >= 2:
@@ -426,8 +584,10 @@ def check_rows(ctx, rows, prof, origin, stats):
         if a["cycle"]:
             stats["cyclic"] += 1
         for sig, what in fs:
-            if gr is not None and uniq_ok and sig.startswith("ns:same-global-name"):
-                sig = "guarded-tree:" + sig     # no name is defined twice: the attribution is wrong
+            if gr is not None and ((uniq_ok and sig.startswith("ns:same-global-name"))
+                                   or (quals_ok and uniq_ok and sig.startswith("ns:qualifier-shared"))):
+                # C19_values_observed covers this tree (its guards hold): the attribution is wrong
+                sig = "guarded-tree:" + sig
             per_sig[sig] += 1
             stats["oracle_failures"][sig] += 1
             if per_sig[sig] <= 2:
@@ -441,7 +601,7 @@ def run(ctx):
     ctx.assumptions = ["Model/Modules.v is the loader: checked by the contract tie below on every run",
                        "unique_defs is evaluated in Coq on every tree; the shared-global-name class may only be claimed "
                        "where it is false"]
-    proved = ctx.prove("C19")
+    proved = ctx.prove("C19", extracted=["ModulesTables"])
     if ctx.tier == "thorough" and proved:
         ctx.coqchk("C19")
     ok, out = vlib.coq_make(["Base/CaseCheck.vo", "Model/ModulesObs.vo"])
@@ -452,7 +612,9 @@ def run(ctx):
     n_random = 700 if ctx.tier == "quick" else 6000
     profiles = ["dev"] if ctx.tier == "quick" else ["dev", "release"]
     stats = {"runs": 0, "codes": collections.Counter(), "labels": collections.Counter(), "distinct": set(),
-             "oracle_failures": collections.Counter(), "ns_class": 0, "nested": 0, "cyclic": 0}
+             "oracle_failures": collections.Counter(), "guards": collections.Counter(), "sessions": 0,
+             "session_inputs": collections.Counter(), "session_outcomes": collections.Counter(), "opt_levels": collections.Counter(),
+             "forms": collections.Counter(), "spellings": collections.Counter(), "sizes": collections.Counter(), "ns_class": 0, "nested": 0, "cyclic": 0}
     corpus = sorted(glob.glob(os.path.join(vlib.VERIF, "corpus", "C19", "*.txt")))
     if getattr(ctx, "replay_file", None):
         import json
@@ -487,6 +649,11 @@ def run(ctx):
         "trees": sum(stats["codes"].values()), "outcomes": dict(stats["codes"]), "families": dict(stats["labels"]),
         "trees_with_nested_directories": stats["nested"], "trees_with_reachable_cycle": stats["cyclic"],
         "trees_with_a_global_name_defined_twice": stats["ns_class"],
+        "value_guards(unique_defs,quals_ok_b)": {str(k): v for k, v in stats["guards"].items()},
+        "repl_sessions": stats["sessions"], "repl_inputs_per_session": dict(stats["session_inputs"]),
+        "repl_last_outcome": dict(stats["session_outcomes"]),
+        "entry_opt_levels": dict(stats["opt_levels"]), "import_statements_by_form": dict(stats["forms"]),
+        "files_per_tree": dict(sorted(stats["sizes"].items())), "spelling_features": dict(stats["spellings"]),
         "random_flavours": "f0 flat forward-only 40%, f1 flat with back edges 15%, f2 nested directories with repeated file names, "
                            "mod.aelys and imports resolved next to the entry file 20%, f3 shared definition names 10%, f4 malformed "
                            "(missing modules, private/undefined symbols, `needs mod.symbol`) 15%; only f3 (a global name defined by two "
